@@ -161,6 +161,63 @@ def run_case(acc, env, body, mt, mode, n0, carried, case_id, rnd_desc):
         if gb != [(t, v) for t, v in exp_body]:
             viol("roundtrip:body-differs", f"decoded body {gb[:6]} expected {exp_body[:6]}")
     acc.sample({"mode": mode, "wire": fixwire.show(wire)[:300]}, 3)
+    # --- the same message object, changed below the top level and encoded again: the second frame is the changed message
+    if mode == "normal" and msggen.has_group(body):
+        path = _mutate_nested(msg, body, n0 + carried)
+        if path is None:
+            return
+        acc.oracle("re-encode-after-nested-change")
+        witness2 = dict(witness, changed=path, body_after=body)
+        try:
+            wire2 = codec.encode(msg, sess).encode("utf-8")
+            ref2 = fixwire.parse(wire2)
+        except Exception as e:
+            acc.violation("re-encode:raised", f"second encode of the changed message: {type(e).__name__}: {e}", witness2, case_id)
+            return
+        exp2 = msggen.flatten([b for b in body if b[0] != "34"])
+        if ref2[7:-1] != exp2:
+            witness2["wire2"] = fixwire.show(wire2)
+            acc.violation("re-encode:stale-content", f"after {path} the second frame still carries {[x for x in ref2[7:-1] if x not in exp2][:4]} "
+                          f"/ misses {[x for x in exp2 if x not in ref2[7:-1]][:4]}", witness2, case_id)
+        elif fixwire.get(ref2, 34) != str(n0 + 1):
+            acc.violation("seq:header", f"second frame numbered {fixwire.get(ref2, 34)}, expected {n0 + 1}", witness2, case_id)
+
+
+def _mutate_nested(msg, body, salt):
+    """Change the real message and its model in the same way, as deep as the message goes.  Returns a description or None."""
+    # deepest item: follow the last group of the last item while there is one
+    cont, model, depth, trail = msg, body, 0, []
+    while True:
+        groups = [(i, t) for i, (t, v) in enumerate(model) if isinstance(v, list) and v]
+        if not groups:
+            break
+        i, t = groups[-1]
+        items_model = model[i][1]
+        items_real = cont.get_group_list(t)
+        k = len(items_model) - 1
+        cont, model, depth = items_real[k], items_model[k], depth + 1
+        trail.append(f"{t}[{k}]")
+        parent = (items_real, items_model)
+    if depth == 0:
+        return None
+    kind = salt % 3
+    plain = [(i, t) for i, (t, v) in enumerate(model) if not isinstance(v, list)]
+    if kind == 0 and len(plain) >= 2:
+        # change the value of a plain member of the deepest item
+        i, t = plain[-1]
+        cont.set(t, "CHG", replace=True)
+        model[i] = (t, "CHG")
+        return f"set {'.'.join(trail)}.{t}=CHG"
+    if kind == 1 and len(parent[1]) >= 2:
+        # drop the last item of the deepest group through the list the accessor returned
+        parent[0].pop()
+        parent[1].pop()
+        return f"pop last item of {'.'.join(trail[:-1])}.{trail[-1].split('[')[0]}"
+    # append a copy of the deepest item to its group through the list the accessor returned
+    import copy
+    parent[0].append(copy.deepcopy(cont))
+    parent[1].append(copy.deepcopy(model))
+    return f"append an item to {'.'.join(trail[:-1])}.{trail[-1].split('[')[0]}"
 
 
 def run_shard(spec, acc):
